@@ -37,12 +37,13 @@ def _has_attr(node, attr):
 def locate():
     fs = pyif.func_src(N.ProgramData.__dict__['load_commandline_flags'])
     body = fs.node.body
-    starts = [i for i, s in enumerate(body) if isinstance(s, ast.For) and isinstance(s.iter, ast.Call)
-              and isinstance(s.iter.func, ast.Name) and s.iter.func.id == 'range' and _mentions(s.iter, 'optimize_level')]
+    # the level application: the one top-level `for` whose iterable is computed from optimize_level (a range over the level table, or a
+    # helper of the class called with the level -- pyif runs such a helper concretely, see pyif.Interp.real_call)
+    starts = [i for i, s in enumerate(body) if isinstance(s, ast.For) and _mentions(s.iter, 'optimize_level')]
     ends = [i for i, s in enumerate(body) if isinstance(s, ast.For) and _mentions(s.iter, 'flag_overrides')]
     if len(starts) != 1 or not ends or ends[-1] <= starts[0]:
         raise pyif.CannotEncode("cannot encode: resolution tail of load_commandline_flags not found "
-                                "(expected one top-level `for .. in range(.. optimize_level ..)` followed by a "
+                                "(expected one top-level `for .. in <expression over optimize_level>` followed by a "
                                 "top-level `for .. in flag_overrides...`)")
     i, j = starts[0], ends[-1]
     tail, prefix, suffix = body[i:j + 1], body[:i], body[j + 1:]
@@ -120,6 +121,10 @@ class Enc:
     pass
 
 
+ENCODE_HISTORY = []     # the -O levels of all encode() calls of this process, in order: what a helper of the real class that pyif runs
+#                         concretely (Interp.real_call) has seen before -- the *history* dimension of the encodings (enumerated, not symbolic)
+
+
 def encode(loc, level, t):
     fs, tail, rs, rassign = loc
     it = pyif.Interp(while_bound=NF + 1, max_depth=NF + 4)
@@ -145,6 +150,9 @@ def encode(loc, level, t):
     e.live = pyif.zb(it.pc)
     e.stats = it.stats
     e.functions = it.functions
+    e.history = list(ENCODE_HISTORY)          # levels resolved in this process before this encoding was built
+    e.real_calls = it.stats.get('real_calls', 0)
+    ENCODE_HISTORY.append(level)
     return e
 
 
@@ -170,6 +178,11 @@ print(json.dumps(out))
 
 def real_run(argvs):
     return pyif.run_real(REPLAY_CODE, {'argvs': argvs}, chk.REPO, timeout=120)
+
+
+def real_run_fresh(argv):
+    """one command line in a process of its own (no history)"""
+    return real_run([argv])[0]
 
 
 def argv_of(level, order, values):
@@ -244,6 +257,22 @@ def viol_level_enables(rs, ws):
                                  if f.name not in named and not _on(r, f)]
 
 
+def viol_level_only(rs, ws):
+    """bare -O<L> (after the history in ws['history']): an optimisation flag outside levels 0..L (and not on by default / by implication) is on"""
+    r = rs[-1]
+    return r['err'] is None and [f.name for f in OPT_FLAGS if f.name not in ws['expected_on'] and _on(r, f)]
+
+
+def viol_history(rs, ws):
+    """the last command line, run after ws['history'] in one process, against the same command line in a process of its own"""
+    r = rs[-1]
+    fresh = real_run_fresh(ws['argv'])
+    ws['real_fresh_process'] = {'err': fresh['err'], 'msg': fresh['msg'], 'on': sorted(k for k, v in fresh['flags'].items() if v)}
+    if (r['err'] is None) != (fresh['err'] is None):
+        return [('error', fresh['err'], r['err'])]
+    return r['err'] is None and [k for k in r['flags'] if r['flags'][k] != fresh['flags'][k]]
+
+
 def viol_explicit_wins(rs, ws):
     r = rs[0]
     want = {n: True for n in ws['on']}
@@ -281,6 +310,7 @@ def region_to_z3(expr, level, level2):
 # exclusion walk under `distinct`) it does not finish in 5 minutes while z3 needs < 5 s -- those stay z3-only (DESIGN: cross-check is
 # best effort, a disagreement is inconclusive, a give-up is recorded)
 CVC5_KINDS = ('vacuity', 'unwinding', 'no-other-exception', 'implied-on', 'explicit-opt-flag-wins', 'level-enables-its-flags',
+              'level-enables-only-its-flags',
               'level-superset', 'level-same-error')
 CVC5_TLIMIT_MS = 30000
 
@@ -363,11 +393,14 @@ class Checker:
             except Exception as ex:
                 run.harness_error(f"{name}: replay failed to run: {ex}")
                 return 'harness'
-            preds = [predicted(m, e) for e in encs]
+            if len(encs) != len(reals):
+                run.harness_error(f"{name}: replay returned {len(reals)} outcomes for {len(encs)} command lines")
+                return 'harness'
+            preds = [predicted(m, e) if e is not None else None for e in encs]      # None: a history step, outcome not predicted
             wit['real'] = [{'err': r_['err'], 'msg': r_['msg'], 'on': sorted(k for k, v in r_['flags'].items() if v)} for r_ in reals]
-            if not all(agrees(p, r_) for p, r_ in zip(preds, reals)):
+            if not all(p is None or agrees(p, r_) for p, r_ in zip(preds, reals)):
                 run.harness_error(f"{name}: ENCODING MISMATCH -- the formula's prediction differs from the real function on "
-                                  f"argv={argvs}: predicted={[(p['err'], sorted(k for k, v in p['flags'].items() if v)) for p in preds]} "
+                                  f"argv={argvs}: predicted={[p and (p['err'], sorted(k for k, v in p['flags'].items() if v)) for p in preds]} "
                                   f"real={wit['real']}")
                 return 'harness'
             v = real_viol(reals, wit)
@@ -470,7 +503,7 @@ def validate(run, encs, count):
                 reals.append(None)
             except Exception as ex2:
                 run.harness_error(f"validation: the real load_commandline_flags could not be run on {argv}: {type(ex2).__name__}: {str(ex2)[:200]}")
-                return len(argvs), len(argvs)
+                return len(argvs), len(argvs), []
         for argv in hung[:3]:
             # "finishes with a configuration or a reported error": a command line on which resolution does not return (replayed: 20 s)
             run.violation('C19/terminates', {'argv': argv, 'observed': 'no return within 20 s'}, f'load_commandline_flags does not return for {argv}')
@@ -478,7 +511,8 @@ def validate(run, encs, count):
         argvs = [a for a, r in zip(argvs, reals) if r is not None]
         reals = [r for r in reals if r is not None]
     bad = 0
-    for argv, real in zip(argvs, reals):
+    hist_dep = []
+    for idx, (argv, real) in enumerate(zip(argvs, reals)):
         level, od = parse_argv(argv)
         e = encs[(level, 1)]
         s = pyif.new_solver()
@@ -496,12 +530,24 @@ def validate(run, encs, count):
         pred = predicted(m, e)
         extra = [k for k, v in e.other.items() if z3.is_true(m.eval(v, model_completion=True))] + \
                 [u['line'] for u in e.unwind if z3.is_true(m.eval(u['cond'], model_completion=True))]
+        if not extra and not agrees(pred, real):
+            # the validation command lines run one after the other in ONE process, the formula describes one call: does the real function
+            # agree with the formula in a process of its own?  Then the encoding is right and the real function depends on its history --
+            # which the history obligations below must report (a run that sees this and reports nothing is a harness error)
+            try:
+                fresh = real_run_fresh(argv)
+            except Exception:
+                fresh = None
+            if fresh is not None and agrees(pred, fresh):
+                hist_dep.append({'argv': argv, 'after': argvs[:idx]})
+                continue
         if extra or not agrees(pred, real):
             bad += 1
             run.harness_error(f"validation: ENCODING MISMATCH on argv={argv}: predicted err={pred['err']} "
                               f"on={sorted(k for k, v in pred['flags'].items() if v)} extra={extra}; real err={real['err']} "
                               f"on={sorted(k for k, v in real['flags'].items() if v)}")
-    return len(argvs), bad
+    run.cov['validation_lines_that_differ_only_after_a_history'] = [h['argv'] for h in hist_dep][:10]
+    return len(argvs), bad, hist_dep
 
 
 def main(tier, replay):
@@ -510,7 +556,7 @@ def main(tier, replay):
     if replay:
         with open(replay) as f:
             w = json.load(f)['witness']
-        argvs = [w[k] for k in ('argv', 'argv2') if k in w]
+        argvs = list(w.get('history') or []) + [w[k] for k in ('argv', 'argv2') if k in w]     # one process, in this order
         for a, r in zip(argvs, real_run(argvs)):
             print('argv', a, '->', r['err'], r['msg'], 'on:', sorted(k for k, v in r['flags'].items() if v))
         print('violating (as recorded):', w.get('violating'))
@@ -522,7 +568,15 @@ def main(tier, replay):
         levels = sorted(N.ProgramData._OPTIMIZE_LEVELS)
         if levels != list(range(len(levels))):
             raise pyif.CannotEncode("cannot encode: _OPTIMIZE_LEVELS keys are not 0..k")
-        encs = {(L, t): encode(loc, L, t) for L in levels for t in (1, 2, 0)}
+        encs = {(L, t): encode(loc, L, t) for L in levels for t in (1, 2, 0)}     # each level first met in ascending order
+        # history dimension: when the resolution code calls a helper of the real class (pyif runs it concretely: its result may depend on
+        # what this process resolved before, e.g. a cache), every level is encoded a second time after ALL levels were resolved, highest
+        # first; the solver then decides that the two formulas of one level are equivalent.  Without such a call the formula is a function
+        # of the source text and the enum metadata alone and there is nothing to compare.
+        hist = {}
+        if any(e.real_calls for e in encs.values()):
+            for L in reversed(levels):
+                hist[L] = encode(loc, L, 1)
     except pyif.CannotEncode as ex:
         run.harness_error(str(ex))
         return run.finish("encoding failed: " + str(ex))
@@ -541,7 +595,10 @@ def main(tier, replay):
     run.bounds = {'flags (all symbolic: present/value/rank)': NF, 'implies pairs': len(pairs_imp), 'exclusive pairs': len(pairs_exc),
                   'optimisation levels (concrete per query)': levels, 'while-True fixpoint unrolling': NF + 1,
                   'longest implies chain (aux inlining depth)': depth, 'rank positions unrolled per symbolic-order loop': NF,
-                  'encodings built': len(encs), 'encoding build time s': round(t_build, 2),
+                  'encodings built': len(encs) + len(hist), 'encoding build time s': round(t_build, 2),
+                  'histories': ('2 per level: level first met in ascending order / after all levels, descending (the resolution code calls real helper '
+                                'methods: %s)' % sorted(k for e in encs.values() for k, v in e.functions.items() if isinstance(v, dict) and v.get('how')))
+                  if hist else '1 (the encoded code calls no helper of the real class: the formula does not depend on process state)',
                   'interpreter stats of one encoding': e0.stats}
     run.assumptions = [
         'flag_overrides is a dict keyed by ProgramFlag members filled by the (untranslated) argv loop; any such dict is represented by '
@@ -553,7 +610,7 @@ def main(tier, replay):
     ck = Checker(run, tier)
 
     # translator validation first: a wrong encoding must not produce verdicts
-    nval, bad = validate(run, encs, 60 if tier == 'quick' else 400)
+    nval, bad, hist_dep = validate(run, encs, 60 if tier == 'quick' else 400)
     run.cov['validation_command_lines'] = nval
     run.cov['validation_mismatches'] = bad
     if bad:
@@ -631,6 +688,35 @@ def main(tier, replay):
                                                                     for j in range(L + 1) for f in N.ProgramData._OPTIMIZE_LEVELS[j]] + [z3.BoolVal(False)])),
              [e1], wit1, viol_level_enables, 'a flag of a level <= L that is not mentioned on the command line is off'),
         ]
+        # bare -O<L>: an optimisation flag outside levels 0..L that is neither on by default nor implied by a flag that is on stays off
+        base_on = {f for f in FL if f.default} | {f for j in range(L + 1) for f in N.ProgramData._OPTIMIZE_LEVELS[j]}
+        while True:
+            more = {PF(i) for f in base_on for i in f.implies} - base_on
+            if not more:
+                break
+            base_on |= more
+        expected_on = sorted(f.name for f in base_on)
+        no_over = [z3.Not(PRESENT[f]) for f in FL]
+
+        def only_goal(e):
+            return z3.And(*no_over, z3.Not(e.err), z3.Or([e.final[f] for f in OPT_FLAGS if f not in base_on] + [z3.BoolVal(False)]))
+
+        def wit_only(m, L=L, hist_=()):
+            w, a = wit1(m)
+            w['expected_on'] = expected_on
+            w['history'] = [argv_of(j, [], {}) for j in hist_]
+            return w, w['history'] + a
+        jobs.append(('level-enables-only-its-flags', only_goal(e1), [e1], wit_only, viol_level_only,
+                     f'bare -O{L} switches on an optimisation flag that is not in levels 0..{L}'))
+        if L in hist:
+            eh = hist[L]
+            hl = list(eh.history)
+            jobs.append(('history/level-enables-only-its-flags', only_goal(eh), [None] * len(hl) + [eh], lambda m, L=L, hl=hl: wit_only(m, L, hl),
+                         viol_level_only, f'bare -O{L} after other levels were resolved in the same process switches on an optimisation flag that is '
+                         f'not in levels 0..{L}'))
+            jobs.append(('history/independent', z3.Or(e1.err != eh.err, z3.And(z3.Not(e1.err), z3.Or([e1.final[f] != eh.final[f] for f in FL]))),
+                         [None] * len(hl) + [eh], lambda m, L=L, hl=hl: wit_only(m, L, hl), viol_history,
+                         'the configuration for a command line depends on which -O levels were resolved before in the same process'))
         for nm, goal, es, wf, rv, what in jobs:
             t0 = time.time()
             trivial = z3.is_false(z3.simplify(goal))
@@ -663,6 +749,9 @@ def main(tier, replay):
             s.pop()
             note('level-superset/no-overrides', r, t0)
     run.cov['per_assertion'] = summary
+    if hist_dep and not any('history/' in v['obligation'] for v in run.violations):
+        run.harness_error('validation saw the real function disagree with the formula only after a history of other command lines '
+                          f"(e.g. {hist_dep[0]['argv']}), but no history obligation reported it")
     if ck.use_cvc5:
         run.cov['cvc5_rechecked_queries'] = ck.cvc5_n
         run.cov['cvc5_time_s'] = round(ck.cvc5_time, 2)
@@ -680,7 +769,9 @@ def main(tier, replay):
             raise
         c19_argv = None
         run.cov['argv_part'] = 'checks/c19_argv.py not present in this revision: clause "unknown or malformed options are reported" not decided here'
-    if c19_argv is not None:
+    if c19_argv is not None and chk.ONLY and 'argv' not in chk.ONLY:
+        run.cov['argv_part'] = 'skipped: partial run (VERIF_ONLY=%s does not name the argv part)' % chk.ONLY   # debugging aid, scratch evidence only
+    elif c19_argv is not None:
         try:
             c19_argv.run_into(run, tier)
         except Exception as ex:
@@ -693,7 +784,8 @@ def main(tier, replay):
         f'for each -O level {levels} z3 decides for all 3^{NF} absent/on/off assignments of all {NF} flags and all orders of the command line: '
         'implied flags on, exclusive flags never both on, explicit conflicts are errors, order independence (two rank copies), levels '
         'cumulative (superset and same error outcome at L+1 with equal other options), explicit optimisation flag wins, the level enables '
-        f'its flags, no other exception, and the unwinding assertion of the fixpoint (unrolled {NF + 1}). The argv loop before the tail is '
+        'its flags and -- bare -- no optimisation flag of a higher level, (when the code calls helpers of the real class, run concretely: the formula '
+        'of a level built after all levels were resolved is equivalent to the one built first), no other exception, and the unwinding assertion of the fixpoint (unrolled {NF + 1}). The argv loop before the tail is '
         'not part of this formula (validated concretely; see argv part).')
 
 
